@@ -156,7 +156,8 @@ Proof.
   intros Hj Hs. unfold SSM. rewrite !run_writes_col, !run_col_proj by auto. f_equal.
   unfold ssm_writes. rewrite !proj_flat_map. apply flat_map_ext. intros b. rewrite !proj_flat_map.
   apply flat_map_ext. intros om. rewrite !proj_app.
-  rewrite (proj_n_star _ _ src src') by auto.
+  rewrite (proj_n_star _ _ src src') by auto. f_equal.
+  destruct (bm_barrier (bo_mesh om)); auto.
   rewrite (proj_d_star _ src), (proj_d_star _ src'), Hs; auto.
 Qed.
 
@@ -164,14 +165,14 @@ Qed.
 Lemma ssm_rows cond bounds nsv src w :
   In w (ssm_writes o ST st_v NV DV K cond bounds nsv src) ->
   exists b om, In b bounds /\ In om (bb_meshes b) /\
-    (In (wrow w) (bm_verts (bo_mesh om)) \/ In (wrow w) (bm_tris (bo_mesh om))).
+    (In (wrow w) (bm_verts (bo_mesh om)) \/ (bm_barrier (bo_mesh om) = false /\ In (wrow w) (bm_tris (bo_mesh om)))).
 Proof.
   unfold ssm_writes. intros H. apply in_flat_map in H. destruct H as [b [Hb H]].
   apply in_flat_map in H. destruct H as [om [Hom H]]. exists b, om. repeat split; auto.
   apply in_app_or in H. destruct H as [H|H].
   - left. unfold n_writes in H. apply in_flat_map in H. destruct H as [v1 [Hv H]].
     apply in_map_iff in H. destruct H as [i [<- _]]. auto.
-  - right. unfold d_writes in H. apply in_flat_map in H. destruct H as [t1 [Ht H]].
+  - right. destruct (bm_barrier (bo_mesh om)); [destruct H|]. split; auto. unfold d_writes in H. apply in_flat_map in H. destruct H as [t1 [Ht H]].
     apply in_flat_map in H. destruct H as [t2 [_ H]]. destruct (st_v t2) as [[a bb] c].
     simpl in H. destruct H as [<-|[<-|[<-|[]]]]; auto.
 Qed.
